@@ -136,14 +136,7 @@ def aobj : Arg → Option AObj
 
 def distSq (a b : Obj) : Option (Except DErr Rat) :=
   match a, b with
-  | .flat (.point p), .flat (.point q) => some (.ok (distSqPointPoint p q))
-  | .flat (.point p), .flat (.line l) => some (distSqPointLine p l)
-  | .flat (.line l), .flat (.point p) => some (distSqPointLine p l)
-  | .flat (.line a), .flat (.line b) => some (distSqLineLine a b)
-  | .flat (.point p), .flat (.plane pl) => some (distSqPointPlane p pl)
-  | .flat (.plane pl), .flat (.point p) => some (distSqPointPlane p pl)
-  | .flat (.line l), .flat (.plane pl) => some (distSqLinePlane l pl)
-  | .flat (.plane pl), .flat (.line l) => some (distSqLinePlane l pl)
+  | .flat x, .flat y => distSqGeo x y
   | _, _ => none
 
 def showRats (l : List Rat) : String := " ".intercalate (l.map showRat)
